@@ -15,7 +15,6 @@ package afero
 
 import (
 	"fmt"
-	"io"
 	"log"
 	"os"
 	"path/filepath"
@@ -337,15 +336,12 @@ func (m *MemMapFs) OpenFile(name string, flag int, perm os.FileMode) (File, erro
 		// the access mode, not the whole flag word, decides whether the handle may write
 		file = mem.NewReadOnlyFileHandle(data)
 	}
-	if flag&os.O_APPEND > 0 {
-		_, err = file.Seek(0, io.SeekEnd)
-		if err != nil {
-			file.Close()
-			return nil, err
-		}
-	}
-	if flag&os.O_TRUNC > 0 && flag&(os.O_RDWR|os.O_WRONLY) > 0 {
-		err = file.Truncate(0)
+	toEnd := flag&os.O_APPEND > 0
+	truncate := flag&os.O_TRUNC > 0 && flag&(os.O_RDWR|os.O_WRONLY) > 0
+	if toEnd || truncate {
+		// the O_APPEND offset, then the O_TRUNC truncation, in one critical section of the
+		// file's mutex: handles on the same file do not take m.mu
+		err = file.PrepareOpen(toEnd, truncate)
 		if err != nil {
 			file.Close()
 			return nil, err
